@@ -27,7 +27,7 @@ type backend struct {
 	backendpb.UnimplementedDNSServiceServer
 
 	mu        sync.Mutex
-	script    []string // per stream: "ok", "reject-open", "reject-after-all", "reject-after-1"
+	script    []string // per stream: "ok", "ok-no-response", "reject-open", "reject-after-all", "reject-after-1", "deadline-after-all"
 	streamNum int
 	delivered map[string]uint32
 	lastMeta  map[string]meta
@@ -70,14 +70,25 @@ func (b *backend) SaveDevicesBillingStat(srv grpc.ClientStreamingServer[backendp
 	if kind == "reject-after-all" {
 		return status.Error(codes.Unavailable, "scripted: rejected after all records")
 	}
+	if kind == "deadline-after-all" {
+		return status.Error(codes.DeadlineExceeded, "scripted: deadline exceeded after all records")
+	}
 	for id, d := range got {
 		b.delivered[id] += d.Queries
 		b.lastMeta[id] = meta{Time: int64(d.LastActivityTime.AsTime().Sub(base)), Country: d.ClientCountry, ASN: d.Asn, Proto: int(d.Proto)}
 	}
+	if kind == "ok-no-response" {
+		// The backend commits the batch and finishes the call with OK status
+		// without sending the (empty) response message: the client sees io.EOF
+		// from CloseAndRecv, which is a success.
+		return nil
+	}
 	return srv.SendAndClose(&emptypb.Empty{})
 }
 
-var faultKinds = []string{"ok", "reject-open", "reject-after-all", "reject-after-1"}
+var faultKinds = []string{"ok", "ok-no-response", "reject-open", "reject-after-all", "reject-after-1", "deadline-after-all"}
+
+func accepted(kind string) bool { return kind == "ok" || kind == "ok-no-response" }
 
 // realUploader drives billstat.RuntimeRecorder on top of the REAL
 // backendpb.BillStat uploader against the scripted backend.
@@ -146,13 +157,16 @@ func realUploader(r *vkit.Run) {
 			}
 			err := rec.Refresh(ctx)
 			trace = append(trace, fmt.Sprintf("refresh backend=%s err=%v", kind, err != nil))
-			if (kind == "ok") != (err == nil) {
+			if accepted(kind) != (err == nil) {
 				r.Violation("grpc:refresh-error-mismatch", "Refresh's result does not reflect the backend's acceptance/rejection of the stream",
 					map[string]any{"case": ci, "script": seq, "trace": trace, "err": fmt.Sprint(err)})
 			}
-			if kind != "ok" {
+			if !accepted(kind) {
 				hadFault = true
 				r.Bucket("grpc_streams_rejected", 1)
+			}
+			if kind == "ok-no-response" {
+				r.Bucket("grpc_streams_ok_without_response", 1)
 			}
 		}
 		// drain
